@@ -84,3 +84,15 @@ func WithRetrieveOptions(ro *storage.RetrieveOptions) ReaderOption {
 		}
 	}
 }
+
+// copy returns a new options set with the same values. Each reader works on
+// its own copy so that configuring it never changes the library defaults or
+// another reader.
+func (o *Options) copy() *Options {
+	no := *o
+	no.formatOptions = map[string]interface{}{}
+	for k, v := range o.formatOptions {
+		no.formatOptions[k] = v
+	}
+	return &no
+}
